@@ -424,3 +424,63 @@ R.contract(
     replayable=False,
 )
 R.spec_funcs["is_str_"] = lambda it, v: isinstance(v, str)
+
+
+# ------------------------------------------------------------------------------------------------- items / properties / apply_until_success: SUCCESS only if a sub-schema was really mutated, and then it MUST occur
+R.contract("spec:a_mutation", args={"context": Opq("Any"), "draw": Opq("Any"), "schema": Opq("Any")}, returns=EnumOf(MU + "MutationResult"), trusted=True,
+           effects={"tried": "ghost('tried') + [(schema, result.name)]"}, note="one of the schema mutations (own contracts): SUCCESS only for a real change")
+
+
+def _some_mutations(it, env):
+    from pyvc.interp import SpecCallable
+
+    n = it.path.choose([(k, True) for k in (0, 1, 2)], "n-mutations")
+    it.path.bounded_inputs.add("up to 2 applicable mutations per sub-schema")
+    return [SpecCallable(f"mutation{i}", "spec:a_mutation", None) for i in range(n)]
+
+
+R.contract(MU + "get_mutations", args={"draw": Opq("Any"), "schema": Opq("Any")}, returns=_some_mutations, trusted=True, note="the mutations applicable to the schema's types, in a drawn order")
+SUCC = "any(r == 'SUCCESS' for sc, r in ghost('tried'))"
+R.contract(
+    MU + "apply_until_success",
+    prop="C02",
+    args={"context": Opq("MutationContextRef"), "draw": Opq("Draw"), "schema": Opq("SubSchema")},
+    ghost={"tried": []},
+    raises=[],
+    ensures={
+        "success_iff_some_mutation_succeeded": "iff(" + SUCCESS_ + ", " + SUCC + ")",
+        "stops_at_the_first_success": "all(r == 'FAILURE' for sc, r in ghost('tried')[:-1]) and all(sc is schema for sc, r in ghost('tried'))",
+    },
+    replayable=False,
+)
+R.contract(
+    MU + "_change_items_object",
+    prop="C02",
+    args={"context": Opq("MutationContextRef"), "draw": Opq("Draw"), "schema": DictOf(required={"type": Const("array")}, optional={"minItems": IntRange(0, None)}), "items": Opq("ItemsSchema")},
+    ghost={"tried": []},
+    raises=[],
+    ensures={
+        "success_iff_the_items_schema_was_mutated": "iff(" + SUCCESS_ + ", " + SUCC + ") and all(sc is items for sc, r in ghost('tried'))",
+        # an empty array satisfies any `items`: after a successful mutation at least one (invalid) item must be present
+        "a_mutated_items_schema_must_be_exercised": "implies(" + SUCCESS_ + ", schema['minItems'] >= 1 and schema['minItems'] >= old(dict(schema)).get('minItems', 0))",
+        "failure_changes_nothing": "implies(not " + SUCCESS_ + ", schema == old(dict(schema)))",
+    },
+    replayable=False,
+)
+R.contract(
+    MU + "_change_items_array",
+    prop="C02",
+    args={"context": Opq("MutationContextRef"), "draw": Opq("Draw"), "schema": DictOf(required={"type": Const("array")}, optional={"minItems": IntRange(0, None)}),
+          "items": ListOf(Opq("ItemSchema"), [1, 2, 3])},
+    ghost={"tried": []},
+    raises=[],
+    ensures={
+        "success_iff_some_positional_schema_was_mutated": "iff(" + SUCCESS_ + ", " + SUCC + ")",
+        # tuple-style items: the array must be long enough to contain the LAST mutated position
+        "the_last_mutated_position_must_be_present": "implies(" + SUCCESS_ + ", all(schema['minItems'] >= i + 1 for i in range(length(items)) if any(same_ref(sc, items[i]) and r == 'SUCCESS' for sc, r in ghost('tried'))))",
+        "failure_changes_nothing": "implies(not " + SUCCESS_ + ", schema == old(dict(schema)))",
+    },
+    bounded_note="up to 3 positional item schemas",
+    replayable=False,
+)
+R.spec_funcs["same_ref"] = lambda it, a, b: a is b
